@@ -120,6 +120,9 @@ func gAns(r tmindex.VC02Rec, code int) string {
 
 func runTree(rp Replay) (*Case, error) {
 	tc := rp.Tree
+	if tc.Kind == "deepmerge" {
+		return runTreeSteps(rp)
+	}
 	t, err := tmindex.VC02NewTree(2)
 	if err != nil {
 		return nil, err
@@ -272,5 +275,87 @@ func runAdv(rp Replay) (*Case, error) {
 		NonTrivial: a[0] <= a[1] && a[0] < a[2],
 		Oracle:     viol,
 		Stream:     "adv",
+	}, nil
+}
+
+// runTreeSteps: a deep tree with collapsing adds is observed at checkpoints (after each of the first out-of-order
+// adds and at the end), because later collapses can make different intermediate trees converge
+func runTreeSteps(rp Replay) (*Case, error) {
+	tc := rp.Tree
+	t, err := tmindex.VC02NewTree(2)
+	if err != nil {
+		return nil, err
+	}
+	defer t.Close()
+	var steps []string
+	var pend []string
+	mx := int64(-9223372036854775808)
+	checkpoints := 0
+	maxLvl := 0
+	merged := false
+	emit := func() error {
+		trav, err := t.Traversal()
+		if err != nil {
+			return err
+		}
+		lo := len(trav) - 45
+		if lo < 0 {
+			lo = 0
+		}
+		var tail []string
+		for _, iv := range trav[lo:] {
+			tail = append(tail, GPair(gRec(iv[0].Ts, int64(iv[0].Idx)), gRec(iv[1].Ts, int64(iv[1].Idx))))
+		}
+		var ge, lt []string
+		for _, q := range tc.Qs {
+			r, c := t.GrEq(q)
+			ge = append(ge, gAns(r, c))
+			r, c = t.Less(q)
+			lt = append(lt, gAns(r, c))
+		}
+		steps = append(steps, GTuple(GList(pend), GListZ(tc.Qs), GPair(GZ(int64(len(trav))), GList(tail)), GPair(GList(ge), GList(lt))))
+		pend = nil
+		return nil
+	}
+	for i, a := range tc.Adds {
+		if a[1] < 0 || a[3] < 0 || a[1] > 4294967295 || a[3] > 4294967295 {
+			return nil, fmt.Errorf("tree: idx out of uint32 range")
+		}
+		lvlBefore := t.Level()
+		if i == 0 {
+			lvlBefore = 0
+		}
+		if err := t.Add(tmindex.VC02Rec{Ts: a[0], Idx: uint32(a[1])}, tmindex.VC02Rec{Ts: a[2], Idx: uint32(a[3])}); err != nil {
+			return nil, fmt.Errorf("tree add: %v", err)
+		}
+		pend = append(pend, GPair(gRec(a[0], a[1]), gRec(a[2], a[3])))
+		if lvlBefore > maxLvl {
+			maxLvl = lvlBefore
+		}
+		if a[0] < mx && lvlBefore >= 1 {
+			merged = true
+			if checkpoints < 5 {
+				checkpoints++
+				if err := emit(); err != nil {
+					return nil, err
+				}
+			}
+		}
+		if a[0] > mx {
+			mx = a[0]
+		}
+		if a[2] > mx {
+			mx = a[2]
+		}
+	}
+	if err := emit(); err != nil {
+		return nil, err
+	}
+	return &Case{
+		Coq:        GApp("KTreeSteps", GList(steps)),
+		Replay:     rp,
+		NonTrivial: merged,
+		Stream:     "tree",
+		Tags:       []string{"tree:" + tc.Kind, fmt.Sprintf("tree-maxlevel:%d", maxLvl), fmt.Sprintf("tree-merged-deep:%v", merged)},
 	}, nil
 }
